@@ -11,8 +11,9 @@ sys.path.insert(0, os.path.dirname(__file__))
 import bech32  # noqa: E402
 
 VERIF = os.path.dirname(os.path.dirname(os.path.abspath(__file__)))
-IMPL = os.path.join(VERIF, ".cache", "bin", "impl")
-MODEL = os.path.join(VERIF, "lean", ".lake", "build", "bin", "driver")
+_CACHE = os.environ.get("VERIF_CACHE", os.path.join(VERIF, ".cache"))
+IMPL = os.path.join(_CACHE, "bin", "impl")
+MODEL = os.path.join(VERIF if "VERIF_CACHE" not in os.environ else _CACHE, "lean", ".lake", "build", "bin", "driver")
 
 HRP = "noble"
 ORB_BYTES = bech32.module_address("orbiter")
